@@ -231,12 +231,12 @@ def with_repeated_ids(rng, t, count=None):
     return snapshot.from_plain(Node, plain, fresh_ids=False)
 
 
-def tree_through(gen, element, child_name):
+def tree_through(gen, element, child_name, bare_child=False):
     """A smallest valid tree rooted at `element` whose root lists a child called `child_name` (None if the rule's language has no valid
     sequence through that name, or a sibling it needs cannot be built)."""
     from vlib import relang
     rname = gen.known.get(element)
-    if rname is None or not gen.buildable(child_name):
+    if rname is None or not (bare_child or gen.buildable(child_name)):
         return None
     try:
         m = emlkit.machine_of(rname)
@@ -252,7 +252,7 @@ def tree_through(gen, element, child_name):
             goal = st
             break
         for a in m.sigma:
-            if a == relang.FOREIGN or not gen.buildable(a):
+            if a == relang.FOREIGN or not (gen.buildable(a) or (bare_child and a == child_name)):
                 continue
             nx = (m.delta[s_][a], seen or a == child_name)
             if nx not in prev:
@@ -271,5 +271,5 @@ def tree_through(gen, element, child_name):
     for k, v in emlkit.valid_attributes(rname).items():
         root.add_attribute(k, v)
     for a in seq:
-        root.add_child(gen.minimal_tree(a))
+        root.add_child(Node(a, content="x") if (bare_child and a == child_name and not gen.buildable(a)) else gen.minimal_tree(a))
     return root
